@@ -1,12 +1,17 @@
 #!/bin/sh
-# tools/try_seed.sh <Cxx> <patch.diff> : run ./check Cxx against a scratch worktree of /repo HEAD with the patch applied.
-# (equivalent to applying it in /repo; a worktree is used so that concurrently running checks are not disturbed)
-pid="$1"; patch="$2"
+# tools/try_seed.sh <Cxx> <patch.diff> [tier] [logfile]: run ./check Cxx against a scratch worktree of /repo HEAD with the patch applied.
+# (equivalent to applying it in /repo; a worktree is used so that concurrently running checks are not disturbed; evidence/ is not
+# touched because VERIF_REPO != /repo). Gen/ files regenerated from the patched tree are left in place: run
+# `git -C /verif checkout -- lean/RkVerif/Gen harness/gen` after the last experiment (every check regenerates its own on each run).
+pid="$1"; patch="$2"; tier="${3:-quick}"; log="${4:-/tmp/seedlog_$$.log}"
 wt=/tmp/wt_seed_$$
 git -C /repo worktree add -q $wt HEAD || exit 2
 if ! git -C $wt apply "$patch"; then echo "PATCH DOES NOT APPLY"; git -C /repo worktree remove --force $wt; exit 2; fi
 cd /verif
-VERIF_REPO=$wt ./check $pid 2>&1 | grep -E "VIOLATION|KNOWN-FINDING|Traceback|Error" | cut -c1-220 | head -8
+s=$(date +%s)
+VERIF_REPO=$wt ./check $pid --tier $tier > "$log" 2>&1
 rc=$?
-git -C /verif checkout -q -- lean/RkVerif/Gen harness/gen 2>/dev/null
+e=$(date +%s)
+echo "$pid $(basename $(dirname $patch)) rc=$rc $((e-s))s :: $(grep -E "VIOLATION|KNOWN-FINDING|Traceback" "$log" | cut -c1-200 | head -4 | tr '\n' '|')"
 git -C /repo worktree remove --force $wt
+exit $rc
